@@ -14,7 +14,7 @@ CONSTANTS K = 2
   D = 0
 INIT Init
 NEXT Next
-VIEW view
+VIEW viewE
 CONSTRAINT Bounds
 CHECK_DEADLOCK FALSE
 INVARIANT TypeOK
@@ -22,8 +22,10 @@ INVARIANT PendingCovered
 INVARIANT BarriersInFlight
 INVARIANT DrainedAgree
 INVARIANT DrainedAgreeKeys
-INVARIANT WritesEndWithBarrier
+INVARIANT NoOrphan
 PROPERTY SyncAtBarrier
 PROPERTY SyncAtBarrierKeys
 PROPERTY InstalledOnlyAfterBarrier
 PROPERTY RemovedOnlyWhenConfirmed
+PROPERTY WritesEndWithBarrier
+PROPERTY NoExceptions
